@@ -151,3 +151,11 @@ def _(value: frozenset):
 @customize_repr
 def _(value: type):
     return value.__qualname__
+
+
+@customize_repr
+def _(value: float):
+    if value in (float("inf"), float("-inf")):
+        # the repr of these values (inf, -inf) is no python expression
+        return f'float("{real_repr(value)}")'
+    return real_repr(value)
